@@ -5,14 +5,18 @@ from contracts.c01 import TDC_Q_EXT as TDC_Q
 PROPERTY = "C07"
 LEVEL = "other"
 EXPLANATION = (
-    "Deductive: dataset.update_labels - the accepted-target count that brew compares with the best feature is "
+    "Deductive: brew#fallback - the decision between learned scores and best feature (first maximal pass count, "
+    "strict comparison with the accepted-target count, feature values + direction handed back); "
+    "dataset.update_labels - the accepted-target count that brew compares with the best feature is "
     "computed from GENUINE targets whatever the label encoding (1/-1, 1/0, bool): labels == the C01 label rule "
     "applied to (label == 1 / True).  Bounded stand-in: brew with estimators that cannot learn, three label "
     "encodings, both feature directions; the direction clause of assign_confidence is a known finding.")
 ASSUMPTIONS = [
     "TabularDataReader.from_path(p).read(columns=[c]) returns column c of the file p, one value per row (assumed "
     "reader contract); a label column is an integer or a bool column",
-    "the comparison block of brew (feat_total vs pred_total, replacement of the scores) is covered by the bounded run",
+    "brew#fallback: the models' best_feat / feat_pass / desc / override are read-only attributes; "
+    "read_data(columns=[c]).values is column c (assumed); the lengths and label-column facts that update_labels "
+    "requires are block assumptions (established by the prediction code before the block, bounded-only)",
 ]
 
 FILE_FRAME = Ghost("file_frame", "FPath -> Frame")
@@ -75,7 +79,61 @@ update_labels = Contract(
     replay="harness.c07:update_labels_adapter",
 )
 
-CONTRACTS = [update_labels, from_path]
+COLV = Ghost("col_values", "Psms, str -> nd[real]")
+
+LIB_CONTRACTS.append(
+    Contract(target="lib:Psms.read_data", params={"self": "Psms", "columns": "list[str]"}, returns="nd[real]",
+             skip_body=True, global_ghosts=[COLV], requires=["len(columns) == 1"],
+             ensures=["same(result, col_values(self, columns[0]))"],
+             notes="assumed: read_data(columns=[c]).values is column c of the collection, one value per PSM"))
+
+_FILE = "file_frame(psms[i].filename)"
+psum_nonneg = Lemma(
+    "psum_nonneg", {"xs": "list[int]", "k": "int"},
+    requires=["all(xs[j] >= 0 for j in range(len(xs)))", "0 <= k <= len(xs)"],
+    ensures=["psum(xs, k) >= 0"], induct="k")
+
+brew_tail = Contract(
+    target="mokapot.brew.brew#fallback",
+    block={"start": "if not all([m.override for m in models])", "end": "if feat_total > pred_total:"},
+    free={"models": "list[ModelObj]", "psms": "list[Psms]", "scores": "list[nd[real]]", "test_fdr": "real"},
+    fields={"ModelObj.override": "bool", "ModelObj.best_feat": "str", "ModelObj.feat_pass": "int",
+            "ModelObj.desc": "bool", "Psms.filename": "FPath", "Psms.target_column": "str"},
+    global_ghosts=[TDC_Q, FILE_FRAME, READER_PATH, COLV],
+    locals={"preds": "list[nd[real]]", "descs": "list[bool]", "pred_total": "int", "feat_total": "int",
+            "best_feat_idx": "int", "using_best_feat": "bool", "feat": "str", "desc": "bool"},
+    assumes=[
+        # one fitted (or failed) model per fold, one score vector per collection (established by the code before)
+        "len(models) >= 1", "len(scores) == len(psms)",
+        # the preconditions of update_labels for every collection: one score per row, well-formed label column
+        "all(len(scores[i]) == fr_len(%s) and len(scores[i]) >= 1 for i in range(len(psms)))" % _FILE,
+        "all(fr_isbool(%s, psms[i].target_column) or all(-1 <= fr_int(%s, psms[i].target_column)[r] <= 1 "
+        "for r in range(fr_len(%s))) for i in range(len(psms)))" % (_FILE, _FILE, _FILE),
+    ],
+    lemmas=[psum_nonneg],
+    ghost_at=[{"after": "pred_total = sum(", "do": [
+        "lemma psum_nonneg([(pred == 1).sum() for pred in preds], len(preds))",
+        "assert pred_total >= 0"]}],
+    witness={},
+    ensures=[
+        "len(descs) == len(psms) and len(scores) == len(psms)",
+        # falling back: some model's best feature passed more targets than the learned scores (pred_total, counted
+        # by update_labels on genuine targets) and no model's feature passed more than that one; every collection
+        # then gets that feature's values together with its direction
+        "implies(using_best_feat, 0 <= best_feat_idx < len(models) and "
+        "all(models[j].feat_pass <= models[best_feat_idx].feat_pass for j in range(len(models))) and "
+        "models[best_feat_idx].feat_pass > pred_total and "
+        "all(descs[i] == models[best_feat_idx].desc and "
+        "same(scores[i], col_values(psms[i], models[best_feat_idx].best_feat)) for i in range(len(psms))))",
+        # keeping the learned scores: only if the user forces the model(s) or no best feature beats them
+        "implies(not using_best_feat, same(scores, old(scores)) and all(descs[i] for i in range(len(psms))) and "
+        "(all(models[j].override for j in range(len(models))) or "
+        "all(models[j].feat_pass <= pred_total for j in range(len(models)))))",
+    ],
+    uses=["mokapot.dataset.update_labels"],
+)
+
+CONTRACTS = [update_labels, from_path, brew_tail]
 BOUNDED = {"module": "harness.c07"}
 
 MUTANTS = [
@@ -85,4 +143,14 @@ MUTANTS = [
      "replace": "    return _update_labels(\n        scores=scores,\n        targets=df[target_column],"},
     {"name": "desc-not-forwarded", "target": "mokapot.dataset.update_labels",
      "find": "        eval_fdr=eval_fdr,\n        desc=desc,\n    )", "replace": "        eval_fdr=eval_fdr,\n        desc=True,\n    )"},
+    {"name": "fallback-only-when-strictly-more-than-twice", "target": "mokapot.brew.brew#fallback",
+     "find": "    if feat_total > pred_total:", "replace": "    if feat_total > 2 * pred_total:"},
+    {"name": "fallback-takes-the-worst-feature", "target": "mokapot.brew.brew#fallback",
+     "find": "        best_feat_idx, feat_total = max(", "replace": "        best_feat_idx, feat_total = min("},
+    {"name": "fallback-direction-dropped", "target": "mokapot.brew.brew#fallback",
+     "find": "        descs = [desc] * len(psms)", "replace": "        descs = [True] * len(psms)"},
+    {"name": "fallback-keeps-learned-scores", "target": "mokapot.brew.brew#fallback",
+     "find": "                columns=[feat],", "replace": "                columns=[best_feats[0][0]],"},
+    {"name": "fallback-feature-of-first-model", "target": "mokapot.brew.brew#fallback",
+     "find": "        feat, _, desc = best_feats[best_feat_idx]", "replace": "        feat, _, desc = best_feats[0]"},
 ]
